@@ -4,6 +4,26 @@ COMMON_NOTE = ("Trusted base: the simulator (sim/), the hook placement (every AB
                "Sampling, not enumeration.")
 TECH = "deterministic simulation with fault injection: seeded search over schedules/programs/configurations; "
 TEXT = {
+    "C14": {
+        "level_text": "Seeded exploration of user-defined pools (ABT_pool_user_def and the legacy ABT_pool_def) whose unit handles are crafted integers that all collide in one bucket of the 256-entry unit->work-unit table and whose pop order comes from the PRNG, mixed with a built-in pool under BASIC/PRIO/RANDWS schedulers on 1..3 streams; ULTs and tasklets are created in, re-associate themselves with (ABT_self_set_associated_pool) and are freed from these pools while suspended ULTs keep stable units in the same bucket; the user pool's call log decides: create_unit exactly once per association, free_unit exactly once when it ends, never a push/pop/free of a dead or foreign unit, no unit left queued; ABT_thread_get_unit / ABT_unit_get_thread must translate exactly for every stable live unit at every query; every unit runs exactly once.",
+        "level_note": COMMON_NOTE,
+        "technique": TECH + "call-log reference model of the user pool (create/free pairing, liveness of handles) + translation queries + exactly-once counters, seeded (chaos) pop order and colliding handles",
+    },
+    "C15": {
+        "level_text": "Seeded exploration of (a) a white-box driver of ABTI_mem_pool_*: 2..4 simulated threads, each with its own local pool over one shared global pool (1..8 headers per bucket, four page sizes, every large-page request list, optional guard pages), allocate, scribble, free and hand blocks to each other: every block handed out must be disjoint from all live blocks and cache-line aligned, a block's content must survive until its owner frees it, and after destroying the pools the allocation ledger must be back at its baseline (the lock-free LIFO's ABA window is opened by the scheduling point between the two halves of the tagged-pointer accesses); (b) ULTs with default, attribute-sized (16 KiB..16 MiB, mostly not multiples of 64) and user-supplied (every 8-byte offset) stacks created and freed on any stream or external thread: each must run inside its declared stack, get at least the requested size, not overlap any live ULT's stack, keep the bottom of its stack intact across a yield, and be freed without upsetting the allocator (ledger: no interior-pointer or double free, nothing left after ABT_finalize).",
+        "level_note": COMMON_NOTE,
+        "technique": TECH + "disjointness/alignment/conservation invariants over a white-box memory-pool driver + stack containment and pattern checks + allocation ledger, stall-after-publish inside the lock-free LIFO",
+    },
+    "C17": {
+        "level_text": "Seeded exploration of histories of ABT_xstream_create / create_with_rank / set_rank / join+free / get_num issued concurrently by ULTs and external threads (each stream is managed by its creator); the recorded invoke/return history is checked for linearizability against a rank-allocator model (smallest unused rank, grant iff free, reusable after free, count = live streams), owners re-read the ranks of their streams after every operation; a lifecycle scenario runs work, joins, optionally replaces the main scheduler of the joined stream, revives and joins again up to 4 times (state TERMINATED/RUNNING, rank unchanged, work completes exactly once each time) and replaces the caller's own main scheduler, after which the caller and new work must keep running.",
+        "level_note": COMMON_NOTE + " Rank histories are <= 24 operations; search capped at 2e6 nodes.",
+        "technique": TECH + "linearizability check of recorded rank histories against an executable rank-allocator model + lifecycle state assertions + bounded-liveness oracle, spurious cond wake-ups in the native-thread state machine",
+    },
+    "C18": {
+        "level_text": "Fault enumeration: for each of 28 creating/initialising routines (streams, schedulers, pools, ULT/tasklet creation incl. attribute and user stacks, create_many, revive, keys and chained key tables, migration data, every synchronisation object, timers, configs, main-scheduler replacement) and for ABT_init itself (optionally with an affinity string), in a fresh, a populated (second stream, blocked ULT with key values, mutex) and a busy runtime, the k-th allocation-class call made by the calling thread inside that call fails for k = 1, 2, ... until the armed failure no longer fires (malloc/posix_memalign, mmap, mprotect, pthread_create, pthread_*_init; which classes is drawn per run); after every failing call: error code returned, handle untouched or the documented NULL handle, getters of all pre-existing objects unchanged, the same call succeeds when retried, a follow-up workload on the old objects passes, and after ABT_finalize the allocation ledger is empty; calls that succeed through a documented fall-back are counted separately. The schedule of the other streams is sampled while the failure position is swept systematically.",
+        "level_note": COMMON_NOTE + " Only allocations issued by the calling thread inside the routine are failed; assertion-on-mprotect-failure of the documented strict guard mode is excluded.",
+        "technique": TECH + "systematic sweep of the failing allocation index per call (fault attached to the operation) + before/after state comparison + retry + allocation ledger at ABT_finalize",
+    },
     "C16": {
         "level_text": "Seeded exploration of key create/set/get over up to 40 keys and ABT_KEY_TABLE_SIZE in {1,...,64} (chains longer than the in-descriptor storage) on ULTs, tasklets and the primary ULT through ABT_key_set/get and ABT_self_set/get_specific, while another ULT or external thread sets keys of the running owners with ABT_thread_set_specific (racing the lazy table creation and chain appends); a per-unit reference map decides every get (single writer per (unit,key); remotely written keys must never go back in time or show another unit's value), and a destructor log decides that at free / ABT_finalize each destructor ran exactly once for every non-NULL value still stored and never for overwritten values; the ledger catches leaked table blocks.",
         "level_note": COMMON_NOTE,
